@@ -12,6 +12,10 @@ CONSTANTS
   PhaseMaps <- Ph1
   ReKVals <- NoReK
   MaxHist = 0
+  NameMap <- NmId
+  PForms <- PfPlain
+  Containers <- CtList
+  OvKVals <- Ov3
   Configs <- CfgFewBoth
   Comp <- CompDef
 INVARIANT FreeVsInlinedAgree
